@@ -1,5 +1,6 @@
 import Woodpile.Driver.Util
 import Woodpile.Model.SlidingDeque
+import Woodpile.Model.ZDeque
 
 /-!
 Model driver for family `sdeque` (C15).  Op vocabulary (values are `u32`s in decimal):
@@ -12,6 +13,18 @@ Model driver for family `sdeque` (C15).  Op vocabulary (values are `u32`s in dec
 Every op answers two identical `O` lines, `vec …` and `small …`: the harness runs the op
 on a `SlidingVec<u32>` and on a `SlidingSmallVec<[u32; 4]>`, and both must behave like
 the one model.
+
+Zero-sized items (a `SlidingDeque<Vec<()>>` and one over a length-publishing wrapper, with
+container lengths up to `usize::MAX`):
+
+  zfrom n | zadvance n | zpop_front | zpop_back | zpush | zfront | zback | zslide | zclear | zlen
+
+replayed on the length-only model `ZDeque` (`Woodpile/Model/ZDeque.lean`; proved to be the
+image of the list model under `length` in `Woodpile/Proofs/ZDeque.lean`, pinned by C15), so
+no list of 2^64 units is ever built.  Answers `zvec <ret> len=<len>` and
+`zprobe <ret> len=<len> backing=<container length>`.  `zpush` onto a container that already
+holds `usize::MAX` units answers `cap` and is not executed (std specifies a
+capacity-overflow panic for `Vec::<()>::push` there; `usize` is 64 bits).
 -/
 namespace Woodpile.Driver.SlidingDequeFam
 open Woodpile.Driver Woodpile.SlidingDeque
@@ -61,11 +74,60 @@ def exec (s : SDeque Nat) : Cmd → Option (String × SDeque Nat)
   | .ofList l => some ("()", SDeque.ofList l)
   | .op o => (step s o).map fun (r, s') => (fmtRet r, s')
 
+/-! ### zero-sized items -/
+
+/-- `usize::MAX` (64-bit). -/
+def usizeMax : Nat := 18446744073709551615
+
+inductive ZCmd where
+  | ofLen (n : Nat)
+  | op (o : ZOp)
+  | len
+
+def parseUsize (s : String) : Option Nat :=
+  match s.toNat? with
+  | some n => if n ≤ usizeMax then some n else none
+  | none => none
+
+def parseZCmd : List String → Option ZCmd
+  | ["zfrom", n] => (parseUsize n).map ZCmd.ofLen
+  | ["zadvance", n] => (parseUsize n).map fun n => .op (.advance n)
+  | ["zpop_front"] => some (.op .popFront)
+  | ["zpop_back"] => some (.op .popBack)
+  | ["zpush"] => some (.op .pushBack)
+  | ["zfront"] => some (.op .front)
+  | ["zback"] => some (.op .back)
+  | ["zslide"] => some (.op .slide)
+  | ["zclear"] => some (.op .clear)
+  | ["zlen"] => some .len
+  | _ => none
+
+def fmtZRet : ZRet → String
+  | .unit => "()"
+  | .has b => if b then "some" else "none"
+  | .count n => "n=" ++ toString n
+
+/-- Return value, `len()` (through `deref`, as the harness reads it), backing length. -/
+def fmtZObs (r : String) (z : ZDeque) : List String :=
+  match z.deref with
+  | none => ["panic"]
+  | some n =>
+    ["zvec " ++ r ++ " len=" ++ toString n,
+     "zprobe " ++ r ++ " len=" ++ toString n ++ " backing=" ++ toString z.len]
+
+/-- `none` = panic. -/
+def zexec (z : ZDeque) : ZCmd → Option (String × ZDeque)
+  | .ofLen n => some ("()", ZDeque.ofLen n)
+  | .len => some ("()", z)
+  | .op o => (zstep z o).map fun (r, z') => (fmtZRet r, z')
+
 /-- `cur = none` after a panic (every later op answers `dead`); `snaps` are the
-snapshots of `at k <op>` (`snaps[0]` = the fresh deque). -/
+snapshots of `at k <op>` (`snaps[0]` = the fresh deque); `z` is the deque of
+zero-sized items. -/
 structure St where
   cur : Option (SDeque Nat)
   snaps : List (SDeque Nat)
+  z : ZDeque := ZDeque.ofLen 0
 
 def stepLine (st : St) (ws : List String) : St × List String :=
   match st.cur with
@@ -83,12 +145,24 @@ def stepLine (st : St) (ws : List String) : St × List String :=
           | some (r, s') => ({ cur := some s', snaps := st.snaps.take (k + 1) ++ [s'] }, fmtObs r s')
       | _, _ => (st, ["bad-op"])
     | _ =>
-      match parseCmd ws with
-      | none => (st, ["bad-op"])
-      | some c =>
+      match parseCmd ws, parseZCmd ws with
+      | some c, _ =>
         match exec s c with
         | none => ({ st with cur := none }, ["panic"])
         | some (r, s') => ({ st with cur := some s' }, fmtObs r s')
+      | none, some zc =>
+        match zc with
+        | .op .pushBack =>
+          if st.z.len ≥ usizeMax then (st, ["cap"])
+          else
+            match zexec st.z zc with
+            | none => ({ st with cur := none }, ["panic"])
+            | some (r, z') => ({ st with z := z' }, fmtZObs r z')
+        | _ =>
+          match zexec st.z zc with
+          | none => ({ st with cur := none }, ["panic"])
+          | some (r, z') => ({ st with z := z' }, fmtZObs r z')
+      | none, none => (st, ["bad-op"])
 
 def family : Family :=
   { σ := St, init := { cur := SDeque.new, snaps := [SDeque.empty] }, step := stepLine }
